@@ -5,8 +5,8 @@ from props import codegen_common as cg
 from props import c01
 
 LEVEL = 'proof'
-MODULES = ['Pysmi.Props.C06', 'Pysmi.Pins.SkelC06']
-LAKE_TARGETS = ['Pysmi.Props.C06', 'Pysmi.Pins.SkelC06']
+MODULES = ['Pysmi.Props.C06', 'Pysmi.Props.C06Template', 'Pysmi.Pins.SkelC06']
+LAKE_TARGETS = ['Pysmi.Props.C06', 'Pysmi.Props.C06Template', 'Pysmi.Pins.SkelC06']
 THEOREMS = ['Pysmi.Pins.SkelC06.pin_genObjects', 'Pysmi.Pins.SkelC06.pin_genTableIndex', 'Pysmi.Pins.SkelC06.pin_genCompliances', 'Pysmi.Pins.SkelC06.pin_genObjectType', 
     'Pysmi.Struct.C06_importmap_spec',
     'Pysmi.Struct.C06_object_lists',
@@ -14,9 +14,13 @@ THEOREMS = ['Pysmi.Pins.SkelC06.pin_genObjects', 'Pysmi.Pins.SkelC06.pin_genTabl
     'Pysmi.Struct.C06_compliance',
     'Pysmi.Struct.C06_nodetype',
     'Pysmi.Struct.nodeType_perm_invariant',
+    'Pysmi.Generated.Pysnmp.C06_template_lists_unfiltered',
+    'Pysmi.Generated.Pysnmp.C06_template_lists_present',
+    'Pysmi.Generated.Pysnmp.C06_template_filters_known',
 ]
 TECHNIQUE = ('Lean 4 theorems about the import map (last sorted module wins), object/index/compliance lists (order, flags, module '
-             'attribution; any length) and node-type classification over whole-module row/column sets; correspondence against the JSON '
+             'attribution; any length) and node-type classification over whole-module row/column sets; kernel-decided facts about the loops '
+             'of the pysnmp template regenerated on every run (no filter on any ordered list); correspondence against the JSON '
              'records of generated modules; ground-truth oracle on JSON and on the calls recorded while executing the pysnmp module')
 LEVEL_TEXT = ('Proved in Lean for lists of any length mixing local and imported objects: the import map attributes a symbol to the last '
               'module (sorted order) importing it; OBJECTS/NOTIFICATIONS/VARIABLES lists keep every object in order with that attribution; '
